@@ -60,10 +60,22 @@ def _worker(args):
         pcfg = h.get("patch", {})
         with H.patched(**(pcfg() if callable(pcfg) else pcfg)):
             run = h["run"](job)
+            vevery = h.get("validate_every", 16)
+            with_real = None
+            if vevery and "replay" in h:
+                def with_real(inputs, notes, _h=h, _job=job):
+                    import warnings as _w
+
+                    with H.unpatched():
+                        with _w.catch_warnings():
+                            _w.simplefilter("ignore")
+                            return _h["replay"](_job, inputs, notes)
             res = explore(run, label=label, max_paths=job.get("max_paths", 400_000),
                           max_seconds=job.get("max_seconds", 3300.0) if tier == "thorough" else min(job.get("max_seconds", 600.0), 600.0),
-                          stop_on_cex=True)
+                          stop_on_cex=True, validate=with_real, validate_every=vevery, validate_max=h.get("validate_max", 24))
             out["result"] = res.as_dict()
+            if res.notes:
+                out["validation_error"] = "; ".join(res.notes[:2])
             # translator validation: pinned concrete runs through the shim vs the real code
             if not res.cex and "pinned" in h:
                 for inputs in h["pinned"](job, seed):
@@ -144,7 +156,7 @@ def run_property(prop_id: str, tier: str, seed: int, procs: int | None = None) -
             for inputs, sig in out.get("_pinned", []):
                 pinned_real_checks.append((out["job"], inputs, sig))
     # translator validation, real side: the same concrete inputs on the unpatched code
-    n_validated = 0
+    n_validated = total.validated
     for job, inputs, sig in pinned_real_checks:
         h = mod.HARNESSES[job["h"]]
         try:
